@@ -98,6 +98,18 @@ Definition wrap_with_token (data token : bytes) : res bytes :=
 Definition put_raw_packet_with_pit_token (running : bool) (data token : bytes) : res (list bytes) :=
   if running then do w <- wrap_with_token data token ;; Ok [w] else Err E_NETWORK.
 
+(* _put_raw_packet_with_pit_token_nocopy (kept "as a backup" for stream faces): the envelope header and the data
+   are handed to face.send one after the other  [Length fixed in 6e6923f] *)
+Definition put_raw_packet_with_pit_token_nocopy (running : bool) (data token : bytes) : res (list bytes) :=
+  if running then
+    do pt <- encode_model (depth_of lp_fields) lp_fields (mk_vals lp_fields [(attr_pit_token, VBytes token)]) ;;
+    let frag_l := N.of_nat (length data) in
+    let hdr_l := N.of_nat (length pt) + N.of_nat (tl_size FRAGMENT) + N.of_nat (tl_size frag_l) in
+    let lp_l := hdr_l + frag_l in
+    do a <- tl_enc_r LP_PACKET ;; do b <- tl_enc_r lp_l ;; do c <- tl_enc_r FRAGMENT ;; do d <- tl_enc_r frag_l ;;
+    Ok [a ++ b ++ pt ++ c ++ d; data]
+  else Err E_NETWORK.
+
 (* the [reply] closure created by _on_interest: it captured pit_token and deadline *)
 Record closure := Closure { c_token : option bytes; c_deadline : N }.
 
